@@ -182,7 +182,7 @@ theorem C10_gen_calc_actionPenalty (s : SimState) (it : Item) (ap dn : Val) (r l
 
 /-! ### `access_from_nested_dict` itself -/
 
-theorem access_nil' (v : PyVal) : PyVal.access v [] = .ok v := by cases v <;> rfl
+theorem access_nil_any (v : PyVal) : PyVal.access v [] = .ok v := by cases v <;> rfl
 
 theorem pyEq_succ_zero (n : Nat) : PyVal.pyEq (.int ((n : Int) + 1)) (.int 0) = false := by
   simp only [PyVal.pyEq, PyVal.asNum]
@@ -246,7 +246,7 @@ theorem C10_gen_access (ks : List String) : ∀ d : PyVal,
   | nil =>
     intro d
     rw [List.length_nil, runFunction_succ]
-    exact (access_body_nil _ d).trans (access_nil' d).symm
+    exact (access_body_nil _ d).trans (access_nil_any d).symm
   | cons k ks ih =>
     intro d
     rw [List.length_cons, runFunction_succ]
